@@ -270,6 +270,54 @@ def sibling_tasks():
     return problems
 
 
+def generic_metric_types():
+    """A scope's value "for a metric type": specialisations of one generic state are different types - also when their
+    arguments print alike (`Usage[Literal["small"]]` / `Usage[Literal["large"]]`, `Seen[Sequence[int]]` / `Seen[Sequence[str]]`) -
+    and are folded separately."""
+    from typing import Literal
+    from collections.abc import Sequence
+    problems = []
+
+    class Usage[Model](State):
+        tokens: int = 0
+
+    class Seen[Item](State):
+        count: int = 0
+    small, large = Usage[Literal["small"]], Usage[Literal["large"]]
+    ints, strs = Seen[Sequence[int]], Seen[Sequence[str]]
+    if small is large or ints is strs:
+        return ["specialisations of a generic state with different arguments are one and the same class"]
+    add = lambda a, b: type(a)(**{k: getattr(a, k) + getattr(b, k) for k in ("tokens", "count") if hasattr(a, k)})      # noqa: E731
+
+    async def prog():
+        done = {}
+        async with ctx.scope("root", completion=lambda m: done.update(root=m)):
+            ctx.record(small(tokens=1), merge=add)
+            ctx.record(large(tokens=100), merge=add)
+            with ctx.scope("nested"):
+                ctx.record(small(tokens=2), merge=add)
+                ctx.record(large(tokens=1000), merge=add)
+                ctx.record(ints(count=1), merge=add)
+            ctx.record(strs(count=5), merge=add)
+            ctx.record(small(tokens=4), merge=add)
+        for _ in range(4):
+            await asyncio.sleep(0)
+        m = done.get("root")
+        if m is None:
+            problems.append("generic metric types: the root scope never completed")
+            return
+        own = (m.read(small), m.read(large), m.read(ints), m.read(strs))
+        want = (small(tokens=5), large(tokens=100), None, strs(count=5))
+        if own != want or any(type(a) is not type(b) for a, b in zip(own, want) if b is not None):
+            problems.append(f"records of four specialised metric types in one scope: the scope holds {own}, expected {want}")
+        merged = {type(x): x for x in m.metrics(merge=lambda a, b: b if not a else add(a, b))}
+        wantm = {small: small(tokens=7), large: large(tokens=1100), ints: ints(count=1), strs: strs(count=5)}
+        if merged != wantm:
+            problems.append(f"merged view over specialised metric types: {merged}, expected {wantm}")
+    asyncio.run(asyncio.wait_for(prog(), 5))
+    return problems
+
+
 def several_views():
     """The merged view is the fold with the merge function *supplied to that call*: several views of one scope - live and
     completed - taken one after another with different, freshly made functions (inline lambdas, whose addresses CPython reuses)."""
@@ -395,7 +443,7 @@ def main():
         p = pc[0] if pc else None
     if not p:
         n += 1
-        pv = several_views() or late_records() or sibling_tasks()
+        pv = several_views() or late_records() or sibling_tasks() or generic_metric_types()
         p = pv[0] if pv else None
     if p:
         print(json.dumps(dict(reproduced=True, detail=dict(problem=p, seed=seed, program=n), cases_tried=n), default=str))
